@@ -536,7 +536,7 @@ def _run_covariance(case, ctx):
             # (Pa, kmol) push them to 1e-6..1e-10 where it is known to stall (tabulated in DESIGN.md, not judged)
             other.convert_pressure(mode_to="absolute", unit_to=r.choice(["kPa", "MPa", "mbar", "atm"]))
         if change in ("loading", "both"):
-            other.convert_loading(basis_to=r.choice(["molar", "mass"]), unit_to=None) if False else other.convert_loading(**r.choice([{"basis_to": "molar", "unit_to": "mol"}, {"basis_to": "mass", "unit_to": "mg"}, {"basis_to": "mass", "unit_to": "g"}]))
+            other.convert_loading(basis_to=r.choice(["molar", "mass"]), unit_to=None) if False else other.convert_loading(**r.choice([{"basis_to": "molar", "unit_to": "mol"}, {"basis_to": "mass", "unit_to": "mg"}, {"basis_to": "mass", "unit_to": "g"}, {"basis_to": "molar", "unit_to": "kmol"}, {"basis_to": "mass", "unit_to": "kg"}]))
         if change == "temperature":
             other.convert_temperature("°C")
     ra = _call(pygaps.ModelIsotherm.from_pointisotherm, base, model=name)
